@@ -157,7 +157,7 @@ func c07SharedState(c *Ctx) {
 	for _, g := range gs {
 		name := strings.TrimPrefix(g.Pkg.Pkg.Path(), modPath+"/") + "." + g.Name()
 		elem := g.Type().(*types.Pointer).Elem()
-		if why, ok := frozenShared[name]; ok {
+		if why, ok := frozenShared[c.frozenName(name)]; ok {
 			c.OK(rule, "global "+name, g.Pos(), "frozen shared container: %s", why)
 			continue
 		}
@@ -193,7 +193,7 @@ func c07SharedState(c *Ctx) {
 			}
 			name := strings.TrimPrefix(pk.PkgPath, modPath+"/") + "." + n
 			if ok2, what := mentionsCarrier(v.Type(), map[types.Type]bool{}); ok2 {
-				if _, frozen := frozenShared[name]; frozen {
+				if _, frozen := frozenShared[c.frozenName(name)]; frozen {
 					continue
 				}
 				c.Bad(rule, "carrier-variable "+name, v.Pos(), "package variable %s can hold a %s: per-tunnel state in process-wide storage", name, what)
@@ -234,7 +234,7 @@ func c07SharedState(c *Ctx) {
 			}
 			isCarrier, what := mentionsCarrier(mi.X.Type(), map[types.Type]bool{})
 			key := "cache " + strings.TrimPrefix(store, modPath+"/") + " in " + shortFn(fn)
-			if isCarrier && store != protoPkg+".c" {
+			if isCarrier && store != protoPkg+"."+c.legacyCacheName() {
 				c.Bad(rule, key, ci.Pos(), "a %s is stored in the shared cache %s, which is not the legacy tunnel cache", what, store)
 			} else {
 				c.OK(rule, key, ci.Pos(), "stores %s", mi.X.Type())
@@ -247,7 +247,7 @@ func c07SharedState(c *Ctx) {
 func c07Keys(c *Ctx) {
 	rule := "C07/keys"
 	hg := c.Fn("cmd/rdpgw/protocol", "Gateway.HandleGatewayProtocol")
-	cG := c.Global("cmd/rdpgw/protocol", "c")
+	cG := c.Global("cmd/rdpgw/protocol", c.legacyCacheName())
 	isConnID := func(v ssa.Value) bool {
 		call, ok := strip(v).(*ssa.Call)
 		if !ok || calleeName(call) != "(net/http.Header).Get" {
@@ -480,8 +480,8 @@ func c07ContextOnly(c *Ctx) {
 				c.Check(c.allUp(arg(ci, 0), isCtx), rule, "loop-context in "+shortFn(f), ci.Pos(), "the packet loop runs with the context holding its tunnel", "the packet loop runs with a context other than the one holding its tunnel")
 			}
 		}
-		if n < 4 {
-			c.Undecided(rule, "processor sites", hg.Pos(), "found %d NewProcessor/Process sites (4 confirmed by hand)", n)
+		if n < 2 {
+			c.Undecided(rule, "processor sites", hg.Pos(), "found %d NewProcessor/Process sites (4 on the pinned tree, 2 when both handlers share a helper)", n)
 		}
 	}
 	c.Floor(rule, 8, "security tunnel uses + context wiring")
@@ -691,4 +691,38 @@ func baseOfFieldAddr(a ssa.Value) ssa.Value {
 			a = u.X
 		}
 	}
+}
+
+// legacyCacheName: the package variable of package protocol that is the legacy tunnel cache: "c" on
+// the pinned tree; when that name is gone, the one go-cache variable of the package (a rename).
+func (c *Ctx) legacyCacheName() string {
+	sp := c.P.SSAPkg("cmd/rdpgw/protocol")
+	if sp == nil {
+		return "c"
+	}
+	if sp.Var("c") != nil {
+		return "c"
+	}
+	var names []string
+	for name, m := range sp.Members {
+		g, ok := m.(*ssa.Global)
+		if !ok {
+			continue
+		}
+		if pt, ok := g.Type().(*types.Pointer); ok && typeIs(pt.Elem(), cachePkg, "Cache") {
+			names = append(names, name)
+		}
+	}
+	if len(names) == 1 {
+		return names[0]
+	}
+	return "c"
+}
+
+// frozenName maps the renamed legacy tunnel cache back to its entry in the frozen table.
+func (c *Ctx) frozenName(name string) string {
+	if name == "cmd/rdpgw/protocol."+c.legacyCacheName() {
+		return "cmd/rdpgw/protocol.c"
+	}
+	return name
 }
